@@ -1,5 +1,6 @@
 import DafRel.Props.C03
 #print axioms DafRel.Props.C03.backtracking_sound
+#print axioms DafRel.Props.C03.apply_on_sql_target_sound
 #print axioms DafRel.Props.C03.apply_with_options_sound
 #print axioms DafRel.Props.C03.same_as_plain_application
 #print axioms DafRel.Props.C03.valid_operation_never_column_error
